@@ -281,7 +281,12 @@ func walkLeaves(ms []*mexpr, depth int, f func(m *mexpr, depth int)) {
 }
 
 func monC04(tr *Trace, br map[string]int) (out []Violation) {
+	var gasPrices []gasPrice
+	for _, gp := range defaultGasPrices {
+		gasPrices = append(gasPrices, gasPrice{gp.denom, gp.num})
+	}
 	walk(tr, func(c *ctxStep) {
+		gasPrices = pricesAfter(gasPrices, c)
 		if c.op[0] == "genesis" {
 			br["c04:first-block-after-restart"]++
 			if strings.Contains(strings.Join(c.res, " "), "restricted-message-admitted-after-restart") {
@@ -313,6 +318,17 @@ func monC04(tr *Trace, br map[string]int) (out []Violation) {
 		}
 		pre := strings.Join(linesWith(c.preDump, "T ", "U ", "I ", "L ", "B t"), "\n")
 		post := strings.Join(linesWith(c.postDump, "T ", "U ", "I ", "L ", "B t"), "\n")
+		if pre != post && allSettlement {
+			// a settlement message that takes effect was admitted under the fixed-fee rules: its offer covers the fixed fee in a
+			// configured denomination
+			var gas uint64
+			for _, m := range t.msgs {
+				gas += gasOf(m)
+			}
+			if _, fee := coveredDenom(gasPrices, t, gas); fee == nil {
+				out = append(out, viol("C04", "settlement-effect-without-fixed-fee", c.i, "settlement transaction took effect although its offer %v covers the fixed fee (gas %d) in no configured denomination: %s", t.fee, gas, strings.Join(c.op, " ")))
+			}
+		}
 		if pre != post {
 			br["c04:settlement-state-changed"]++
 			if !allSettlement {
@@ -384,6 +400,33 @@ func dec18(s string) *big.Int {
 	return n
 }
 
+// coveredDenom: the first configured denomination in which the offered fee covers price x fixed gas, and that fee (nil: none)
+func coveredDenom(gasPrices []gasPrice, t *txOp, gas uint64) (denom string, fee *big.Int) {
+	for _, gp := range gasPrices {
+		req := new(big.Int).Quo(new(big.Int).Mul(gp.num, new(big.Int).SetUint64(gas)), one18)
+		off := t.fee[gp.denom]
+		if off == nil {
+			off = big.NewInt(0)
+		}
+		if off.Cmp(req) >= 0 {
+			return gp.denom, req
+		}
+	}
+	return "", nil
+}
+
+// pricesAfter keeps track of the settlement gas prices across governance changes
+func pricesAfter(gasPrices []gasPrice, c *ctxStep) []gasPrice {
+	if c.op[0] == "setprices" && len(c.op) > 1 && c.res[0] == "ok" {
+		gasPrices = nil
+		for _, kvp := range strings.Split(c.op[1], ",") {
+			kv := strings.SplitN(kvp, ":", 2)
+			gasPrices = append(gasPrices, gasPrice{kv[0], dec18(kv[1])})
+		}
+	}
+	return gasPrices
+}
+
 func monC16(tr *Trace, br map[string]int) (out []Violation) {
 	var gasPrices []gasPrice
 	for _, gp := range defaultGasPrices {
@@ -417,19 +460,7 @@ func monC16(tr *Trace, br map[string]int) (out []Violation) {
 		for _, m := range t.msgs {
 			gas += gasOf(m)
 		}
-		var denom string
-		var fee *big.Int
-		for _, gp := range gasPrices {
-			req := new(big.Int).Quo(new(big.Int).Mul(gp.num, new(big.Int).SetUint64(gas)), one18)
-			off := t.fee[gp.denom]
-			if off == nil {
-				off = big.NewInt(0)
-			}
-			if off.Cmp(req) >= 0 {
-				denom, fee = gp.denom, req
-				break
-			}
-		}
+		denom, fee := coveredDenom(gasPrices, t, gas)
 		payer := acctOf(signerOf(t.msgs[0]))
 		if t.payer != "-" && t.payer != "" {
 			payer = acctOf(t.payer)
